@@ -11,6 +11,8 @@ import vcommon as vc
 SPEC = os.path.join(vc.VERIF, "spec", "Matrix")
 INV = "OutcomeMatchesConformability ResultIsDefinition InputsUntouched ReturnedValuesMatch WellFormedHeap"
 TRACE_CFG = os.path.join(SPEC, "MatrixOpsTrace.cfg")
+STORE_CFG = os.path.join(SPEC, "MatrixStoreTrace.cfg")
+STORE_ACTIONS = "New|Convert|Resize|ResizeFlat|Write|AddRowBounded|AddColBounded|Drop"
 ASAN_ENV = {"ASAN_OPTIONS": "abort_on_error=1:detect_leaks=0:handle_abort=0", "UBSAN_OPTIONS": "abort_on_error=1:print_stacktrace=1"}
 
 
@@ -33,7 +35,7 @@ def _sig(rj):
     return sig
 
 
-def action_coverage(tlc_out, module):
+def action_coverage(tlc_out, module, pat=r"D[A-Z]\w*"):
     """Per-action <distinct>:<generated> counts of a -coverage run.  TLC names an action after the innermost
     definition it unfolds (often the shared Step), followed by the position of the disjunct: map that
     position back to the enclosing D<Action> definition of the module."""
@@ -41,17 +43,17 @@ def action_coverage(tlc_out, module):
     defs = []
     with open(os.path.join(SPEC, module + ".tla")) as f:
         for n, ln in enumerate(f, 1):
-            m = re.match(r"^(D[A-Z]\w*)(\(.*\))? ==", ln)
+            m = re.match(r"^(" + pat + r")(\([^=]*\))?\s+==", ln)
             if m:
                 defs.append((n, m.group(1)))
     cov = {}
     for m in re.finditer(r"^<(\w+) line (\d+), col \d+ to line \d+, col \d+ of module \w+(?: \((\d+) \d+ \d+ \d+\))?>: (\d+):(\d+)", tlc_out, re.M):
-        line = int(m.group(3) or m.group(2))
         name = m.group(1)
-        for n, d in defs:
-            if n <= line:
-                name = d
-        if not name.startswith("D"):
+        if m.group(3):                      # position of the disjunct: attribute it to the enclosing action definition
+            for n, d in defs:
+                if n <= int(m.group(3)):
+                    name = d
+        if name not in [d for n, d in defs]:
             continue
         a, b = cov.get(name, (0, 0))
         cov[name] = (a + int(m.group(4)), b + int(m.group(5)))
@@ -132,8 +134,8 @@ def _flip_matrix_result(ev):
             w[1]["e"][-1][-1] += 1
 
 
-def _validate(ck, trace):
-    n_ev, rej, st = vc.validate_trace(SPEC, "MatrixOpsTrace", TRACE_CFG, trace)
+def _validate(ck, trace, module="MatrixOpsTrace", cfg=None):
+    n_ev, rej, st = vc.validate_trace(SPEC, module, cfg or TRACE_CFG, trace)
     ck.events += n_ev
     ck.traces += vc.count_scenarios(trace)
     ck.handle_rejections(rej, _sig)
@@ -156,7 +158,11 @@ def run(tier, seed):
     chain = _write(os.path.join(wd, "design_chain.cfg"),
                    "SPECIFICATION Spec\nCONSTANTS\n  Ids = {1, 2}\n  OutId = 3\n  DMax = %d\n  Vals = %s\n  Bound = %d\n  Depth = 2\n"
                    "INVARIANTS %s RaiseKeepsEverything\nCHECK_DEADLOCK FALSE\n" % ((1, "{1, 2}", 4, INV) if quick else (2, "{1}", 1, INV)))
+    store = _write(os.path.join(wd, "store.cfg"),
+                   "SPECIFICATION SSpec\nCONSTANTS\n  SIds = {1, 2}\n  SDim = 2\n  SVals = {0, 1}\nINVARIANTS Refines OutcomeKnown\n"
+                   "PROPERTIES AddOutcomeIsDefinition OthersUntouched\nCHECK_DEADLOCK FALSE\n")
     jobs = [("MatLemmas", "MatLemmas", lem, 2, False), ("LapLemmas", "LapLemmas", lap, 2, False),
+            ("MatrixStore", "MatrixStore", store, 4, True),
             ("MatrixOps/all-heaps", "MatrixOps", des, max(4, vc.NCPU - 6), False),
             ("MatrixOps/chains", "MatrixOps", chain, 4, True)]
     with ThreadPoolExecutor(max_workers=4) as ex:
@@ -166,8 +172,8 @@ def run(tier, seed):
         consts = open(cfg).read().split("CONSTANTS")[1].split("INVARIANTS")[0].split()
         ck.add_model(name, r, " ".join(consts))
         if cov:
-            ac, all_actions = action_coverage(r.out, module)
-            ck.extra["design_action_coverage"] = {k: "%d:%d" % v for k, v in sorted(ac.items())}
+            ac, all_actions = action_coverage(r.out, module, STORE_ACTIONS if module == "MatrixStore" else r"D[A-Z]\w*")
+            ck.extra.setdefault("design_action_coverage", {}).update({k: "%d:%d" % v for k, v in sorted(ac.items())})
             ck.untaken += [name + ":" + a for a in all_actions if ac.get(a, (0, 0))[1] == 0]
         if r.assumption_failed:
             ck.violation("oracle lemma of %s fails: the definitions disagree with each other\n%s" % (module, r.out[-1500:]), [r.out[-3000:]], tag="lemma")
@@ -182,9 +188,16 @@ def run(tier, seed):
             ("lapexh", ["--mode", "lapexh", "--dim", 3, "--stride", 9 if quick else 1]),
             ("laprand", ["--mode", "laprand", "--n", 500 if quick else 12000])]
     combos = {}
+    runs.append(("store", ["--mode", "store", "--n", 150 if quick else 3000]))
     for name, args in runs:
         tr = os.path.join(wd, "trace-%s.ndjson" % name)
         s = run_driver(exe, args, tr)
+        if name == "store":
+            _validate(ck, tr, "MatrixStoreTrace", STORE_CFG)
+            ck.extra["storage_class_member_calls"] = s.get("calls", 0)
+            ck.samples += vc.sample_scenarios(tr, 1, maxlines=5)
+            os.remove(tr)
+            continue
         _validate(ck, tr)
         if name == "random":
             corruption_control(ck, tr, "MatrixOpsTrace", TRACE_CFG, _pick_matrix_result, _flip_matrix_result, wd)
@@ -200,18 +213,25 @@ def run(tier, seed):
                "1..7 x 1..7, integer and dyadic entries, storage classes of every operand and output cycled through all combinations, "
                "outputs stale / wrongly sized / sentinel-filled, conformable and near-miss shapes; linear assignment on every cost "
                "matrix over {0,1,2} up to 3x3 (quick: every 9th 3x3) and random integer/dyadic costs up to 7x7; "
+               "storage classes: histories of constructors / converting copies / operator= / clone / resize / resize(r,c,false) / "
+               "writes / addRow / addCol / equals / destruction applied in lock-step to one object per class, shapes 0..4 x 0..4 "
+               "incl. r x 0 and 0 x c, every live object re-read after every call; "
                "non-trivial = scenario with at least one routine call")
     ck.distinct = ck.traces
     ck.assumptions = ["TLC 1.8.0; CommunityModules Json", "harness/drv_matrix.cpp reads results only through Matrix::operator()/getNumberOfRows/Columns",
                       "entries are exact in double arithmetic (small integers / dyadic rationals); every value stays below 2^31",
                       "r x 0 and 0 x c shapes are not generated (the storage classes cannot represent them consistently)"]
-    cleanup_tlc_droppings(["MatrixOps", "MatLemmas", "Lap"])
+    cleanup_tlc_droppings(["MatrixOps", "MatLemmas", "Lap", "MatrixStore"])
     return ck.finish()
 
 
 def replay(path):
-    n_ev, rej, st = vc.validate_trace(SPEC, "MatrixOpsTrace", TRACE_CFG, path, parallel=1)
-    cleanup_tlc_droppings(["MatrixOps"])
+    is_store = any('"e":"S' in ln or '"e": "S' in ln for ln in open(path))
+    if is_store:
+        n_ev, rej, st = vc.validate_trace(SPEC, "MatrixStoreTrace", STORE_CFG, path, parallel=1)
+    else:
+        n_ev, rej, st = vc.validate_trace(SPEC, "MatrixOpsTrace", TRACE_CFG, path, parallel=1)
+    cleanup_tlc_droppings(["MatrixOps", "MatrixStore"])
     for rj in rej:
         vc.log("VIOLATION property=C04 replay=%s" % path)
         vc.log("  %s at event #%d: %s" % (rj.reason, rj.index, json.dumps(rj.event)[:800]))
